@@ -106,9 +106,9 @@ def gen_config(rng, alpha_kinds=("fixed", "single"), allow_fail=True):
                 continue                                        # a missing day (gap)
             o = rng.choice(PRICE_LEVELS)
             c = rng.choice(PRICE_LEVELS)
-            if rng.random() < 0.05 and d != first:
-                o = 0                                           # a missing cell
-            if rng.random() < 0.05 and d != first:
+            if rng.random() < 0.05:
+                o = 0                                           # a missing cell (also on the very first bar)
+            if rng.random() < 0.05:
                 c = 0
             bars[d] = [o, c]
         if bars:
